@@ -25,11 +25,13 @@ Proof. exact exactly_once_in_order. Qed.
 Theorem C15_no_mixing : forall s o c co, QInv s -> aget N.eqb c (q_colls s) = Some co ->
   exists co', aget N.eqb c (q_colls (fst (q_step s o))) = Some co' /\ co_dest co' = co_dest co.
 Proof. exact batch_destination_fixed. Qed.
-Theorem C15_zero_timeout_immediate : forall e d w, t_collect (cfg w) = 0 -> queue_send e d w = send_sd [e] d w.
+Theorem C15_zero_timeout_immediate : forall e d w, t_collect (cfg w) = 0 ->
+  queue_send e d w = send_sd [e] d (ghost (GFlush d [e]) (ghost (GQueue e d) w)).
 Proof. exact queue_send_zero. Qed.
 Theorem C15_append_to_open_collector : forall e d w c co,
   t_collect (cfg w) <> 0 -> open_collector w d = Some (c, co) ->
-  queue_send e d w = set_collectors (aset N.eqb c (mkColl (co_dest co) (co_data co ++ [e]) false) (collectors w)) w.
+  queue_send e d w = set_collectors (aset N.eqb c (mkColl (co_dest co) (co_data co ++ [e]) false) (collectors w))
+                                    (ghost (GQueue e d) w).
 Proof. exact queue_send_append. Qed.
 Theorem C15_new_collector_deadline : forall e d w,
   t_collect (cfg w) <> 0 -> open_collector w d = None ->
@@ -43,7 +45,8 @@ Proof. exact queue_send_new. Qed.
 Theorem C15_timeout_sends_collected : forall c w co,
   aget N.eqb c (collectors w) = Some co ->
   collector_timeout c w = send_sd (co_data co) (co_dest co)
-      (set_collectors (aset N.eqb c (mkColl (co_dest co) (co_data co) true) (collectors w)) w).
+      (set_collectors (aset N.eqb c (mkColl (co_dest co) (co_data co) true) (collectors w))
+                      (ghost (GFlush (co_dest co) (co_data co)) w)).
 Proof. exact collector_timeout_spec. Qed.
 
 (* on the full stack model, under every schedule: an open collector always owns its pending, uncancelled timeout handle,
